@@ -1,12 +1,19 @@
 #!/bin/sh
 # usage: tools/trypatch.sh <patch.diff> [props...]   — applies the patch to a scratch copy of /repo (kept in /tmp/wst)
 # and prints the non-passing output of the given checks (default: all). Debug helper; removes the previous copy.
+# TRY_FULL=1 prints required/found lines too.
 V=$(cd "$(dirname "$0")/.." && pwd)
 rm -rf /tmp/wst; mkdir -p /tmp/wst
 rsync -a --exclude .git /repo/ /tmp/wst/repo/
+cp "$V/KNOWN_FINDINGS.txt" /tmp/wst/
 git apply --unsafe-paths --directory=/tmp/wst/repo "$1" || exit 2
+(cd /tmp/wst/repo && GOFLAGS=-mod=mod GOPROXY=off go build ./... ) || { echo "does not build"; exit 2; }
 shift
 props="$*"; [ -z "$props" ] && props=all
 for p in $props; do
-  "$V/bin/wscheck" -repo /tmp/wst/repo -verif /tmp/wst -prop $p | grep -vE "^C[0-9]+ quick.* 0 violation"
+  if [ -n "$TRY_FULL" ]; then
+    "$V/bin/wscheck" -repo /tmp/wst/repo -verif /tmp/wst -prop $p | grep -vE "^C[0-9]+ quick.* 0 violation|^KNOWN-FINDING"
+  else
+    "$V/bin/wscheck" -repo /tmp/wst/repo -verif /tmp/wst -prop $p | grep -E "^  [a-z_./0-9A-Z]+:[0-9]+: rule|undecided|^    found" | cut -c1-400
+  fi
 done
